@@ -377,8 +377,8 @@ def jobs(check, mirror, rb, known_pred):
             res = [("hours < 24, minutes < 60, seconds < 60, none negative", z3.And(d >= 0, h >= 0, h < 24, mi >= 0, mi < 60, s_ >= 0, s_ < 60)),
                    ("days, hours, minutes and seconds add up to the whole seconds of the duration's length",
                     z3.Implies(mag < 2 ** 63 * 86400 * 10 ** 9, z3.And(secs * 10 ** 9 <= mag, mag < (secs + 1) * 10 ** 9))),
-                   ("the signed number of whole seconds has the duration's sign and magnitude",
-                    z3.Implies(mag < 2 ** 62 * 10 ** 9, z3.And(z3.If(tot < 0, -tot, tot) == secs, z3.Implies(tot != 0, (tot < 0) == (v["nanos"] < 0)))))]
+                   ("the signed number of whole seconds has the duration's sign and magnitude; a length beyond the result type is clamped, never wrapped around into another length",
+                    tot == z3.If(v["nanos"] < 0, -1, 1) * z3.If(mag / 10 ** 9 > 2 ** 63 - 1, z3.If(v["nanos"] < 0, z3.IntVal(2 ** 63), z3.IntVal(2 ** 63 - 1)), mag / 10 ** 9))]
             return res
 
         def replay(i, rb):
@@ -393,9 +393,16 @@ def jobs(check, mirror, rb, known_pred):
                 got.append(out[6:].strip() if out.startswith("VALUE ") else out[:30])
             want = [mag // (86400 * 10 ** 9), mag // (3600 * 10 ** 9) % 24, mag // (60 * 10 ** 9) % 60, mag // 10 ** 9 % 60]
             bad = [g.lstrip("-") for g in got] != [str(w) for w in want]
-            return bad, 'duration("%s") has days, hours, minutes, seconds %s; its length says %s' % (lit_, got, want)
+            note = ""
+            if mag // 10 ** 9 > 53999:
+                # the whole seconds are observable through time(h, m, s, offset): an offset beyond +-14:59:59 is no offset
+                _, out, _ = replay_call(rb, ["feel", 'time(10, 0, 0, duration("%s"))' % lit_])
+                note = '; time(10, 0, 0, duration("%s")) -> %s (no valid offset: null)' % (lit_, out[:40])
+                bad = bad or not out.startswith("VALUE null")
+            return bad, 'duration("%s") has days, hours, minutes, seconds %s; its length says %s%s' % (lit_, got, want, note)
         decide(c, crate, "dt_duration_components", setup, post, replay, rb, budget_s=300, min_paths=1, max_cex=2,
-               prefer=lambda v: z3.And(v["nanos"] % 10 ** 9 == 0, v["nanos"] > -(10 ** 16), v["nanos"] < 10 ** 16))
+               prefer=lambda v: [z3.And(v["nanos"] % 10 ** 9 == 0, v["nanos"] > -(10 ** 16), v["nanos"] < 10 ** 16),
+                                 z3.Or([v["nanos"] == (2 ** 64 * k + 3600) * 10 ** 9 for k in (1, 2, -1)]), z3.And(v["nanos"] % 10 ** 9 == 0, v["nanos"] > 0)])
 
     def ym_components_job(c):
         from mir.sym import Adt
